@@ -26,6 +26,7 @@ pub struct ExtraResult {
 }
 
 pub type ExtraFn = fn(&PropSpec, &CheckArgs) -> ExtraResult;
+pub type RunFn = fn(&mut Source, &PropSpec, &RunOpts) -> world::RunResult;
 
 #[derive(Clone)]
 pub struct PropSpec {
@@ -41,6 +42,8 @@ pub struct PropSpec {
     pub thorough_runs: u64,
     pub required_probes: &'static [&'static str],
     pub extra: Option<ExtraFn>,
+    /// scenario engine; None = the client world of `world::run`
+    pub run: Option<RunFn>,
     pub assumptions: &'static [&'static str],
 }
 
@@ -102,7 +105,7 @@ impl<T> DiscHash for std::mem::Discriminant<T> {
 }
 
 pub fn ledger_digest(l: &Ledger) -> u64 {
-    hash_of(&l.steps)
+    hash_of(&(&l.steps, &l.custom_log))
 }
 
 struct Found {
@@ -127,13 +130,19 @@ struct Merged {
 
 pub fn run_one(spec: &PropSpec, seed: u64, run: u64) -> (Ledger, Vec<(String, String)>) {
     let mut src = Source::generate(mix(seed, spec.tag, run));
-    let r = world::run(&mut src, &spec.profile, &spec.opts);
+    let r = match spec.run {
+        Some(f) => f(&mut src, spec, &spec.opts),
+        None => world::run(&mut src, &spec.profile, &spec.opts),
+    };
     (r.ledger, r.entries)
 }
 
 pub fn replay_entries(spec: &PropSpec, entries: &[(String, String)]) -> Ledger {
     let mut src = Source::replay(entries);
-    world::run(&mut src, &spec.profile, &spec.opts).ledger
+    match spec.run {
+        Some(f) => f(&mut src, spec, &spec.opts).ledger,
+        None => world::run(&mut src, &spec.profile, &spec.opts).ledger,
+    }
 }
 
 /// Greedy delta-debugging over plan entries: keep a candidate only if it fails with the same key.
